@@ -689,6 +689,12 @@ func (zp *ZoneParser) Next() (RR, bool) {
 				return zp.setParseError(err.err, err.lex)
 			}
 
+			// Not every RDATA parser looks at the error flag of the tokens
+			// it consumes; a lexer error must not get lost with them.
+			if zp.c.l.err {
+				return zp.setParseError(zp.c.l.token, zp.c.l)
+			}
+
 			if parseAsRFC3597 {
 				err := parseAsRR.(*RFC3597).fromRFC3597(rr)
 				if err != nil {
